@@ -175,7 +175,7 @@ def prefetch_iterator_schedules(case, ctx):
 
 
 def enum_prefetch(ctx):
-  bound = 2 if ctx.tier == 'quick' else 3
+  bound = 3 if ctx.tier == 'quick' else 4
   configs = []
   nmax = 2 if ctx.tier == 'quick' else 3
   for n in range(0, nmax + 1):
@@ -190,7 +190,7 @@ def enum_prefetch(ctx):
 @clause('prefetch_iterator_exhaustive', enum=enum_prefetch, quick_shards=8,
         thorough_shards=16, exhaustive=True,
         rule='for every (length<=2|3, failing position, buffer 1-2): ALL '
-        'schedules of the serialising scheduler with at most 2 (quick) / 3 '
+        'schedules of the serialising scheduler with at most 3 (quick) / 4 '
         '(thorough) pre-emptions, enumerated by DFS over choice sequences; '
         'each schedule counts as one evaluation; non-trivial = schedule has '
         '>=1 pre-emption')
